@@ -95,7 +95,7 @@ def conflicts(cfg, stack, which):
     def offer(name, source):
         src.setdefault(name, []).append(source)
     if which == 'route':
-        for n in cfg.get('url', []):
+        for n in list(cfg.get('url', [])) + list(cfg.get('prefix_url', [])):
             offer(n, 'url')
     else:
         offer('_ignored', 'url')
@@ -125,7 +125,7 @@ def availability(cfg, stack, which):
     mws = cfg['mws']
     base = {}
     if which == 'route':
-        for n in cfg.get('url', []):
+        for n in list(cfg.get('url', [])) + list(cfg.get('prefix_url', [])):
             base[n] = ('url', n)
     serving_is_outer = 'outer' in [m['level'] for m in mws] or cfg.get('embedded')
     for n in cfg.get('outer_res', []):
@@ -283,6 +283,7 @@ def inner_view(cfg):
     c = copy.deepcopy(cfg)
     c['mws'] = [m for m in c['mws'] if m['level'] != 'outer']
     c['outer_res'] = []
+    c['prefix_url'] = []
     c['embedded'] = False
     return c
 
